@@ -1,5 +1,19 @@
-"""Comprehensions over symbolic sequences (filled in per use)."""
+"""Comprehensions over symbolic sequences.
+
+Supported form: [elt for target in seq if cond...] with a side-effect-free
+condition.  The result is a list of symbolic length `cnt` constrained by the
+*filter-length lemma* (engine lemma, listed in the trusted base):
+    0 <= cnt <= len(seq),   cnt == 0  <=>  forall j in range. not cond(j),
+    cnt == len(seq)  <=>  forall j in range. cond(j)
+The condition is evaluated once at a generic bound index j in term-building
+mode (no forking).  Element values are left unconstrained unless the element
+expression is itself needed (map_fn is kept for contracts that want it).
+"""
+import z3
 from .interp import OutOfReach, MISSING
+from .smt import Val, S, VBool
+from . import smt
+from .values import *
 
 
 def symbolic_comprehension(I, node, gen, seq, env):
@@ -8,4 +22,37 @@ def symbolic_comprehension(I, node, gen, seq, env):
         r = h(I, node, gen, seq, env)
         if r is not MISSING:
             return r
-    raise OutOfReach("comprehension over symbolic collection", node)
+    if gen.is_async:
+        raise OutOfReach("async comprehension", node)
+    from .interp import Env
+    n = seq.length if isinstance(seq, SList) else seq.region.length
+    j = I.fresh("cj", z3.IntSort())
+    cenv = Env(parent=env)
+    I.assign(gen.target, I.seq_at(seq, j), cenv)
+    I.spec_mode += 1
+    I.write_log_push()
+    try:
+        conds = []
+        for c in gen.ifs:
+            v = I.ev(c, cenv)
+            conds.append(smt.truthy(I.to_term(v)) if isinstance(v, Sym) else z3.BoolVal(bool(I.truth(v))))
+    finally:
+        I.spec_mode -= 1
+        wl = I.write_log_pop()
+    if wl:
+        raise OutOfReach("comprehension condition with side effects", node)
+    p = S(z3.And(*conds)) if conds else z3.BoolVal(True)
+    cnt = I.fresh("filter_len", z3.IntSort())
+    P = I.prover
+    rng = z3.And(j >= 0, j < n)
+    P.assume(z3.And(cnt >= 0, cnt <= n))
+    w = I.fresh("filter_wit", z3.IntSort())     # skolem: an element passing the filter, if any
+    w2 = I.fresh("filter_cowit", z3.IntSort())  # skolem: an element failing it, if any
+    P.assume(z3.Implies(cnt == 0, z3.ForAll([j], z3.Implies(rng, z3.Not(p)))))
+    P.assume(z3.Implies(cnt != 0, z3.substitute(z3.And(rng, p), (j, w))))
+    P.assume(z3.Implies(cnt == n, z3.ForAll([j], z3.Implies(rng, p))))
+    P.assume(z3.Implies(cnt != n, z3.substitute(z3.And(rng, z3.Not(p)), (j, w2))))
+    out = SList(cnt, I.fresh("filtered", z3.ArraySort(z3.IntSort(), Val)), getattr(seq, "iface", None), "filtered")
+    out.filter_of = (seq, j, p)
+    I.used_engine_lemmas = getattr(I, "used_engine_lemmas", set()) | {"filter-length"}
+    return out
